@@ -4,8 +4,14 @@ LANGUAGES overlap (a unit-variant name that another alternative also accepts)?  
 (no theorem depends on its precision; `hasType` is the exact criterion). -/
 namespace GmQuic.Model.Json
 
-/-- may the two schemas accept a common JSON value? (conservative: `true` when unsure) -/
+def reqNames : Fields → List String
+  | .nil => []
+  | .cons name kind _ tl => (match kind with | .req => [name] | _ => []) ++ reqNames tl
+
+/-- may the EARLIER alternative (first argument) accept a JSON value the later one writes? (conservative: `true` when
+unsure; two structs: no, when the earlier one requires a key the later one never writes) -/
 def mayOverlap : Schema → Schema → Bool
+  | .struct fa _, .struct fb restb => restb || (reqNames fa).all fun n => (allNames fb).contains n
   | .unitEnum a, .unitEnum b => a.any fun x => b.contains x
   | .unitEnum a, .hex pfx len => a.any fun x => isHex pfx x len
   | .hex pfx len, .unitEnum a => a.any fun x => isHex pfx x len
@@ -29,10 +35,36 @@ def fine : Schema → Bool
   | .untagged alts => fineFields alts && altsFine alts
   | .adjacent _ _ alts => fineFields alts
   | .internal _ alts => fineFields alts
+  | .refine s _ => fine s
   | _ => true
 def fineFields : Fields → Bool
   | .nil => true
   | .cons _ _ s tl => fine s && fineFields tl
+end
+
+end GmQuic.Model.Json
+
+namespace GmQuic.Model.Json
+
+/-- identification of an `untagged` node for an exemption list: its alternatives' names followed by the variant names of
+the first alternative when that is a unit enum -/
+def untaggedKey (alts : Fields) : List String :=
+  altNames alts ++ (match alts with | .cons _ _ (.unitEnum ns) _ => ns | _ => [])
+
+/- `fine`, except that the untagged nodes whose key is listed in `ex` are not examined (their alternatives still are) -/
+mutual
+def fineEx (ex : List (List String)) : Schema → Bool
+  | .opt s => fineEx ex s
+  | .seq s _ => fineEx ex s
+  | .struct fs _ => fineExFields ex fs
+  | .untagged alts => fineExFields ex alts && (ex.contains (untaggedKey alts) || altsFine alts)
+  | .adjacent _ _ alts => fineExFields ex alts
+  | .internal _ alts => fineExFields ex alts
+  | .refine s _ => fineEx ex s
+  | _ => true
+def fineExFields (ex : List (List String)) : Fields → Bool
+  | .nil => true
+  | .cons _ _ s tl => fineEx ex s && fineExFields ex tl
 end
 
 end GmQuic.Model.Json
